@@ -189,4 +189,141 @@ theorem add_keeps_table_wf (n flen : Nat) (pre post : List Entry) (slot new : En
       · obtain ⟨x, hx, rfl⟩ := List.mem_map.mp he
         exact hunused x (List.mem_append.mpr (Or.inr (List.mem_cons_of_mem _ hx))) (hpost x hx)
 
+/-! ### replace_block on ANY table: refused before anything is touched, or carried out -/
+
+theorem eraseFirst_eq (p : Entry → Bool) (es : List Entry) (pos : Nat) (h : findIdxBy p es = some pos) :
+    eraseFirst p es = es.take pos ++ es.drop (pos + 1) := by
+  induction es generalizing pos with
+  | nil => simp [findIdxBy] at h
+  | cons x xs ih =>
+    unfold findIdxBy at h
+    unfold eraseFirst
+    by_cases hx : p x = true
+    · simp only [hx, if_true, Option.some.injEq] at h ⊢
+      subst h; simp
+    · simp only [hx, Bool.false_eq_true, if_false] at h ⊢
+      cases hf : findIdxBy p xs with
+      | none => simp [hf] at h
+      | some j =>
+        simp only [hf, Option.map_some, Option.some.injEq] at h
+        subst h
+        rw [ih j hf]
+        simp
+
+theorem find_some_findIdx (p : Entry → Bool) (es : List Entry) (old : Entry) (h : es.find? p = some old) :
+    ∃ pos, findIdxBy p es = some pos := by
+  induction es with
+  | nil => simp at h
+  | cons x xs ih =>
+    unfold findIdxBy
+    by_cases hx : p x = true
+    · exact ⟨0, by simp [hx]⟩
+    · simp only [List.find?_cons, hx] at h
+      obtain ⟨j, hj⟩ := ih h
+      exact ⟨j + 1, by simp [hx, hj]⟩
+
+theorem findIdxBy_map_shift (old : Entry) (q : Nat → Bool) (es : List Entry) :
+    findIdxBy (fun e => q e.typ) (es.map (shiftAfter old)) = findIdxBy (fun e => q e.typ) es := by
+  induction es with
+  | nil => rfl
+  | cons x xs ih => simp only [List.map_cons, findIdxBy, shiftAfter_typ, ih]
+
+theorem findIdxBy_append_fresh (p : Entry → Bool) (es : List Entry) (f : Entry) (hf : p f = true) :
+    findIdxBy p (es ++ [f]) = some ((findIdxBy p es).getD es.length) := by
+  induction es with
+  | nil => simp [findIdxBy, hf]
+  | cons x xs ih =>
+    simp only [List.cons_append, findIdxBy]
+    by_cases hx : p x = true
+    · simp [hx]
+    · simp only [hx, Bool.false_eq_true, if_false, ih, Option.map_some]
+      cases hq : findIdxBy p xs with
+      | none => simp
+      | some j => simp
+
+theorem addBlock_ok (s : TdfSt) (b : BlkArg) (c : Str) (now : Int) (pos : Nat) (pl : Bytes)
+    (hd : hasType b.typ s.entries = false) (hf : firstUnused s.entries = some pos) (hchk : checkArg b c now = .ok pl)
+    (hh : (s.entries.drop (pos + 1)).any (fun e => e.typ != 0) = false) :
+    (addBlock s b c now).2 = .ok := by
+  unfold addBlock
+  simp [hd, hf, hchk, hh]
+
+/-- on what a removal leaves (the remaining entries, moved, plus a fresh unused slot at the end) `add_block` succeeds whenever the
+    remaining entries hold no block of that type and no live entry behind their first unused slot -/
+theorem add_after_remove_ok (rest : List Entry) (oldE fresh : Entry) (hfr : fresh.typ = 0) (s1 : TdfSt)
+    (hs1e : s1.entries = rest.map (shiftAfter oldE) ++ [fresh]) (b : BlkArg) (c : Str) (now : Int) (pl : Bytes)
+    (hty : b.typ ≠ 0) (hone : hasType b.typ rest = false) (hhole' : holeIn rest = false)
+    (hchk : checkArg b c now = .ok pl) : (addBlock s1 b c now).2 = .ok := by
+  have hd1 : hasType b.typ s1.entries = false := by
+    rw [hs1e]
+    unfold hasType at hone ⊢
+    rw [List.any_append]
+    have h1 : (rest.map (shiftAfter oldE)).any (fun x => x.typ == b.typ) = false := by
+      rw [List.any_map]
+      simpa [Function.comp_def] using hone
+    have h2 : ([fresh] : List Entry).any (fun x => x.typ == b.typ) = false := by
+      simp [hfr]; exact fun hh => hty hh.symm
+    simp [h1, h2]
+  have hfu : firstUnused s1.entries = some ((firstUnused rest).getD rest.length) := by
+    rw [hs1e]
+    unfold firstUnused
+    have := findIdxBy_append_fresh (fun e => e.typ == 0) (rest.map (shiftAfter oldE)) fresh (by simp [hfr])
+    rw [this, findIdxBy_map_shift oldE (fun t => t == 0) rest]
+    simp
+  have hnh : (s1.entries.drop ((firstUnused rest).getD rest.length + 1)).any (fun e => e.typ != 0) = false := by
+    rw [hs1e]
+    unfold holeIn at hhole'
+    cases hq : firstUnused rest with
+    | none =>
+      simp only [Option.getD_none]
+      have : (rest.map (shiftAfter oldE) ++ [fresh]).drop (rest.length + 1) = [] := by
+        apply List.drop_eq_nil_of_le; simp
+      rw [this]; rfl
+    | some q =>
+      simp only [hq] at hhole'
+      simp only [Option.getD_some]
+      have hqlt : q < rest.length := by
+        obtain ⟨x, hx, _, _⟩ := findIdxBy_some _ _ _ hq
+        exact (List.getElem?_eq_some_iff.mp hx).1
+      rw [List.drop_append_of_le_length (by simp; omega), List.any_append, ← List.map_drop, List.any_map]
+      have : ((rest.drop (q + 1)).any ((fun e => e.typ != 0) ∘ shiftAfter oldE)) = (rest.drop (q + 1)).any (fun e => e.typ != 0) := by
+        congr 1; funext x; simp
+      rw [this, hhole']
+      simp [hfr]
+  exact addBlock_ok s1 b c now _ pl hd1 hfu hchk hnh
+
+/-- EVERY state, any table (any order, gaps, unused slots anywhere): a replace that reports an error has touched neither the object nor
+    the file, provided the type to replace occurs once. (The pre-check of `replace_block` anticipates everything `add_block` could
+    refuse once the old block is gone.) -/
+theorem replace_rejected_unchanged_any (s : TdfSt) (b : BlkArg) (c : Option Str) (now : Int) (e : Err)
+    (hty : b.typ ≠ 0)
+    (hone : hasType b.typ (eraseFirst (fun x => x.typ == b.typ) s.entries) = false)
+    (h : (replaceBlock s b c now).2 = .err e) : (replaceBlock s b c now).1 = s := by
+  unfold replaceBlock at h ⊢
+  cases hfind : s.entries.find? (fun x => x.typ == b.typ) with
+  | none => simp
+  | some old =>
+    simp only [hfind] at h ⊢
+    cases hchk : checkArg b (c.getD old.comment) now with
+    | error e' => simp
+    | ok pl =>
+      simp only [hchk] at h ⊢
+      by_cases hhole : holeIn (eraseFirst (fun x => x.typ == b.typ) s.entries) = true
+      · simp [hhole]
+      · exfalso
+        have hhole' : holeIn (eraseFirst (fun x => x.typ == b.typ) s.entries) = false := by simpa using hhole
+        simp only [hhole', Bool.false_eq_true, if_false] at h
+        obtain ⟨pos, hpos⟩ := find_some_findIdx _ _ _ hfind
+        have hft : findType b.typ s.entries = some pos := hpos
+        have hrest := eraseFirst_eq _ _ _ hpos
+        have hent := removeBlock_entries s b.typ now pos hft
+        have hs1 : removeBlock s b.typ now = ((removeBlock s b.typ now).1, .ok) := by
+          unfold removeBlock; simp [hft]
+        rw [hs1] at h
+        simp only at h
+        rw [← hrest] at hent
+        have hok := add_after_remove_ok _ _ _ rfl _ hent b (c.getD old.comment) now pl hty hone hhole' hchk
+        rw [hok] at h
+        cases h
+
 end Tdf
